@@ -927,7 +927,8 @@ is_unescaped_in_path(const uint8_t c) {
 
 static int
 is_unescaped_in_query(const uint8_t c) {
-  return is_unescaped_in_path(c) || c=='/' || c=='?';
+  /* '&' separates the Uri-Query options in the string and has to be escaped inside one */
+  return (is_unescaped_in_path(c) && c != '&') || c=='/' || c=='?';
 }
 
 coap_string_t *
